@@ -476,7 +476,9 @@ impl DhtProtocolHandler {
 
             DhtMessage::FindNode { target, count } => {
                 let engine = self.dht_engine.read().await;
-                let nodes = engine.find_nodes(&target, count).await?;
+                // Security: cap the peer-supplied count (same protocol cap as DhtCoreEngine::handle_request)
+                let capped_count = count.min(crate::dht::core_engine::MAX_FIND_NODE_COUNT);
+                let nodes = engine.find_nodes(&target, capped_count).await?;
 
                 Ok(DhtResponse::FindNodeReply {
                     nodes,
